@@ -226,11 +226,22 @@ def run_one(tape, tier, prop):
             spec = {"base": [[s, repr(p)] for s, p in RefRuleset(rdir).raw_base], "vars": {"trained": pws[:12]}}
             res.sample = {"ruleset": "trained", "passwords": pws[:12], "opts": opts}
             res.stats["trained_rulesets"] += 1
+    rule = "R"
     if spec is None:
         wr = scratch.fresh_disk()
         spec = gen_world(t)
+        # a ruleset may live in a sub-directory of Rules/ and be named by its relative path
+        rule = t.choice(["R", "R", "R", "HoneyRules/prod", "team/alpha", "MyRules/R", "old Rules/v2"])
+        rdir = os.path.join(wr, "Rules", *rule.split("/"))
         worlds.write_ruleset(spec, rdir)
-        res.sample = {"ruleset": worlds.spec_summary(spec)}
+        if rule != "R":
+            # next to it, an unrelated ruleset whose name is the last component of that path
+            decoy = {"kind": "syn", "pool": "dyadic", "encoding": "utf-8", "uuid": "00000000-0000-4000-8000-00000000dec0",
+                     "vars": {"D3": [["1.0", ["777"]]]}, "base": [["D3", "1.0"]], "omen": worlds.TRIVIAL_OMEN,
+                     "omen_prob": None, "omen_keyspace": None}
+            worlds.write_ruleset(decoy, os.path.join(wr, "Rules", rule.split("/")[-1]))
+            res.stats["ruleset_named_by_a_relative_path"] += 1
+        res.sample = {"ruleset": worlds.spec_summary(spec), "rule_name": rule}
     import lib_guesser.pcfg_grammar as pg
     import lib_guesser.honeyword_session as hs
     has_m = any(b[0] == "M" for b in spec["base"])
@@ -377,7 +388,7 @@ def run_one(tape, tier, prop):
                         break
                     cumf += Fraction(b["prob"])
                 rng = ScriptedRandom(floats=floats, choices=[t.draw(5) for _ in range(400)], default_float=dflt)
-                text, seam, r = c09.run_proc(["-r", "R", "-s", "S", "--mode", mode, "--limit", str(N)] + flag_args, mode_rng=rng)
+                text, seam, r = c09.run_proc(["-r", rule, "-s", "S", "--mode", mode, "--limit", str(N)] + flag_args, mode_rng=rng)
                 res.faults["scripted_draws_" + ["top", "zero", "mixed_extremes", "uniform", "markov_heavy"][style]] += 1
                 if r.exc:
                     res.violate("C16", "run_raised_before_N_words", {"mode": mode, "limit": N, "written": len(seam),
@@ -403,20 +414,20 @@ def run_one(tape, tier, prop):
             if not res.violations:
                 outs = []
                 for _ in range(2):
-                    text, seam, r = c09.run_proc(["-r", "R", "-s", "S", "--mode", "random_walk", "--limit", "15"] + flag_args)
+                    text, seam, r = c09.run_proc(["-r", rule, "-s", "S", "--mode", "random_walk", "--limit", "15"] + flag_args)
                     outs.append(text if not r.exc else "EXC:" + r.exc[-200:])
                 outputs.append(outs[0])
                 if outs[0] != outs[1]:
                     res.violate("C16", "random_walk_not_reproducible", {"first": outs[0][:80], "second": outs[1][:80]})
                 elif outs[0].startswith("EXC:"):
                     res.violate("C16", "run_raised_before_N_words", {"mode": "random_walk", "exception": outs[0]})
-    if not res.violations and len(ref.raw_base) >= 2 and t.chance(1, 4):
+    if not res.violations and len(ref.raw_base) >= 2 and rule == "R" and t.chance(1, 4):
         edited_ruleset(t, res, wr, flag_args if not only_m else [], skip_case)
     if not res.violations and not only_m and t.chance(1, 150 if tier == "quick" else 20):
         # a long session (progress reporting, counters and buffers have thresholds at round numbers of words)
         N = t.choice([100000, 100001, 131072, 250000]) + t.draw(3)
         mode = t.choice(["random_walk", "honeywords"])
-        text, seam, r = c09.run_proc(["-r", "R", "-s", "S", "--mode", mode, "--limit", str(N)] + flag_args,
+        text, seam, r = c09.run_proc(["-r", rule, "-s", "S", "--mode", mode, "--limit", str(N)] + flag_args,
                                      mode_rng=None if mode == "random_walk" else c09.SimRandom(t.draw(1 << 20)))
         res.stats["sessions_of_100000_words_or_more"] += 1
         if r.exc:
